@@ -30,6 +30,12 @@ Vars == {"x", "y"}
 \* complete world: one object per attribute vector; items / ref give collections and paths
 AttrOf == [o \in Objs |-> CASE o = "o1" -> [a |-> 0, b |-> 0] [] o = "o2" -> [a |-> 0, b |-> 1]
                             [] o = "o3" -> [a |-> 1, b |-> 0] [] OTHER -> [a |-> 1, b |-> 1]]
+\* world 2 = world 1 after an in-place edit of two attribute values (o1.a := 1, o4.b := 0): what the SAME query object must
+\* answer when it is evaluated again after the edit
+AttrOf2 == [AttrOf EXCEPT !["o1"].a = 1, !["o4"].b = 0]
+AttrW(w) == IF w = 1 THEN AttrOf ELSE AttrOf2
+\* set-valued attribute, ordered by inclusion (a partial order: neither  s < t  nor  s >= t  for incomparable sets)
+SOf == [o \in Objs |-> CASE o = "o1" -> {} [] o = "o2" -> {1} [] o = "o3" -> {2} [] OTHER -> {1, 2}]
 WOf == [o \in Objs |-> CASE o = "o1" -> 0 [] o = "o2" -> 1 [] o = "o3" -> 99 [] OTHER -> 1]     \* 99 = None (Optional attribute)
 ItemsOf == [o \in Objs |-> CASE o = "o1" -> <<>> [] o = "o2" -> <<"o1">> [] o = "o3" -> <<"o1", "o4">> [] OTHER -> <<"o4", "o2">>]
 RefOf == [o \in Objs |-> CASE o = "o1" -> "o2" [] o = "o2" -> "o2" [] o = "o3" -> "o4" [] OTHER -> "o1"]
@@ -57,7 +63,10 @@ AtomsSql == { Cmp("eq", A("x", "a"), L(0)), Cmp("lt", A("x", "b"), L(1)), Cmp("g
               Cmp("eq", A("x", "w"), L(1)), Cmp("ne", A("x", "w"), L(1)),
               <<"in", A("x", "a"), <<"setlit", <<0>> >> >>, <<"in", A("x", "b"), <<"setlit", <<0, 1>> >> >>,
               Cmp("eq", A("x", "a"), A("y", "b")) }
-Atoms == CASE Family = "logic" -> AtomsLogic [] Family = "sql" -> AtomsSql [] Family = "logic6" -> AtomsLogic6 [] Family = "quant" -> AtomsQuant [] OTHER -> AtomsAccess
+\* partially ordered values: the negation of  <  is not  >=
+AtomsPoset == { <<"scmp", "lt", A("x", "s"), A("y", "s")>>, <<"scmp", "ge", A("x", "s"), A("y", "s")>>,
+                <<"scmp", "lt", A("y", "s"), A("x", "s")>>, Cmp("eq", A("x", "a"), L(0)), Cmp("eq", A("y", "a"), L(0)) }
+Atoms == CASE Family = "logic" -> AtomsLogic [] Family = "sql" -> AtomsSql [] Family = "poset" -> AtomsPoset [] Family = "logic6" -> AtomsLogic6 [] Family = "quant" -> AtomsQuant [] OTHER -> AtomsAccess
 RECURSIVE ExprD(_)
 ExprD(d) == IF d = 0 THEN Atoms
             ELSE LET S == ExprD(d - 1) IN
@@ -65,42 +74,53 @@ ExprD(d) == IF d = 0 THEN Atoms
 SeqToSet(s) == { s[i] : i \in DOMAIN s }
 
 \* ---------------- layer R
-TermVal(t, asg) == CASE t[1] = "lit" -> t[2]
+TermVal(t, asg, w) == CASE t[1] = "lit" -> t[2]
                      [] t[1] = "var" -> asg[t[2]]
                      [] t[1] = "attr" -> (IF t[3] = "items" THEN ItemsOf[asg[t[2]]] ELSE IF t[3] = "ref" THEN RefOf[asg[t[2]]]
-                                          ELSE IF t[3] = "w" THEN WOf[asg[t[2]]] ELSE AttrOf[asg[t[2]]][t[3]])
+                                          ELSE IF t[3] = "w" THEN WOf[asg[t[2]]] ELSE IF t[3] = "s" THEN SOf[asg[t[2]]]
+                                          ELSE AttrW(w)[asg[t[2]]][t[3]])
                      [] t[1] = "setlit" -> t[2]
-                     [] t[1] = "attr2" -> AttrOf[RefOf[asg[t[2]]]][t[4]]
+                     [] t[1] = "attr2" -> AttrW(w)[RefOf[asg[t[2]]]][t[4]]
 Apply(op, l, r) == CASE op = "eq" -> l = r [] op = "ne" -> l # r [] op = "lt" -> l < r [] op = "ge" -> l >= r
 With(asg, v, o) == [w \in (DOMAIN asg) \cup {v} |-> IF w = v THEN o ELSE asg[w]]
-RECURSIVE Sat(_, _, _)
-Sat(e, asg, dom) == CASE e[1] = "cmp" -> Apply(e[2], TermVal(e[3], asg), TermVal(e[4], asg))
-                 [] e[1] = "in"  -> TermVal(e[2], asg) \in SeqToSet(TermVal(e[3], asg))
-                 [] e[1] = "and" -> Sat(e[2], asg, dom) /\ Sat(e[3], asg, dom)
-                 [] e[1] = "or"  -> Sat(e[2], asg, dom) \/ Sat(e[3], asg, dom)
-                 [] e[1] = "not" -> ~Sat(e[2], asg, dom)
-                 [] e[1] = "exists" -> Sat(e[3], asg, dom)
-                 [] e[1] = "forall" -> \A o \in SeqToSet(dom[e[2]]) : Sat(e[3], With(asg, e[2], o), dom)
+\* comparison of sets by inclusion (Python's  <  and  >=  on sets)
+ApplyS(op, l, r) == IF op = "lt" THEN (l \subseteq r /\ l # r) ELSE r \subseteq l
+RECURSIVE SatW(_, _, _, _)
+SatW(e, asg, dom, w) == CASE e[1] = "cmp" -> Apply(e[2], TermVal(e[3], asg, w), TermVal(e[4], asg, w))
+                 [] e[1] = "scmp" -> ApplyS(e[2], TermVal(e[3], asg, w), TermVal(e[4], asg, w))
+                 [] e[1] = "in"  -> TermVal(e[2], asg, w) \in SeqToSet(TermVal(e[3], asg, w))
+                 [] e[1] = "and" -> SatW(e[2], asg, dom, w) /\ SatW(e[3], asg, dom, w)
+                 [] e[1] = "or"  -> SatW(e[2], asg, dom, w) \/ SatW(e[3], asg, dom, w)
+                 [] e[1] = "not" -> ~SatW(e[2], asg, dom, w)
+                 [] e[1] = "exists" -> SatW(e[3], asg, dom, w)
+                 [] e[1] = "forall" -> \A o \in SeqToSet(dom[e[2]]) : SatW(e[3], With(asg, e[2], o), dom, w)
+Sat(e, asg, dom) == SatW(e, asg, dom, 1)
 RECURSIVE VarsOf(_)
 VarsOf(e) == CASE e[1] = "lit" -> {}
                [] e[1] = "setlit" -> {}
                [] e[1] \in {"var", "attr", "attr2"} -> {e[2]}
-               [] e[1] = "cmp" -> VarsOf(e[3]) \cup VarsOf(e[4])
+               [] e[1] \in {"cmp", "scmp"} -> VarsOf(e[3]) \cup VarsOf(e[4])
                [] e[1] = "in" -> VarsOf(e[2]) \cup VarsOf(e[3])
                [] e[1] \in {"not", "notnode"} -> VarsOf(e[2])
                [] e[1] = "exists" -> VarsOf(e[3]) \cup {e[2]}
                [] e[1] = "forall" -> VarsOf(e[3]) \ {e[2]}
                [] OTHER -> VarsOf(e[2]) \cup VarsOf(e[3])
-QVars(e, sel) == VarsOf(e) \cup SeqToSet(sel)
-SatAsgs(e, dom, sel) == { g \in [QVars(e, sel) -> Objs] : (\A v \in QVars(e, sel) : g[v] \in SeqToSet(dom[v])) /\ Sat(e, g, dom) }
-RowOf(g, sel) == [i \in DOMAIN sel |-> g[sel[i]]]
-Answers(e, dom, sel) == { RowOf(g, sel) : g \in SatAsgs(e, dom, sel) }
+\* a selection is a sequence of variable names or of selected attribute expressions  "x.a"
+SelVar(s) == IF s \in {"x", "y"} THEN s ELSE "x"
+QVars(e, sel) == VarsOf(e) \cup { SelVar(sel[i]) : i \in DOMAIN sel }
+SatAsgsW(e, dom, sel, w) == { g \in [QVars(e, sel) -> Objs] : (\A v \in QVars(e, sel) : g[v] \in SeqToSet(dom[v])) /\ SatW(e, g, dom, w) }
+SatAsgs(e, dom, sel) == SatAsgsW(e, dom, sel, 1)
+\* every selected expression is applied to the SAME row's assignment
+RowOfW(g, sel, w) == [i \in DOMAIN sel |-> IF sel[i] \in {"x", "y"} THEN g[sel[i]] ELSE ToString(AttrW(w)[g["x"]].a)]
+RowOf(g, sel) == RowOfW(g, sel, 1)
+AnswersW(e, dom, sel, w) == { RowOfW(g, sel, w) : g \in SatAsgsW(e, dom, sel, w) }
+Answers(e, dom, sel) == AnswersW(e, dom, sel, 1)
 Bag(e, dom, sel) == LET S == SatAsgs(e, dom, sel) IN { <<r, Cardinality({ g \in S : RowOf(g, sel) = r })>> : r \in Answers(e, dom, sel) }
 \* C02's fragment: and_ of atoms and negated atoms; or_ only between operands over the same variables
 RECURSIVE InFragment(_)
-InFragment(e) == CASE e[1] \in {"cmp", "in"} -> TRUE
+InFragment(e) == CASE e[1] \in {"cmp", "in", "scmp"} -> TRUE
                    [] e[1] \in {"exists", "forall"} -> FALSE
-                   [] e[1] = "not" -> e[2][1] \in {"cmp", "in"}
+                   [] e[1] = "not" -> e[2][1] \in {"cmp", "in", "scmp"}
                    [] e[1] = "and" -> InFragment(e[2]) /\ InFragment(e[3])
                    [] e[1] = "or" -> VarsOf(e[2]) = VarsOf(e[3]) /\ InFragment(e[2]) /\ InFragment(e[3])
 \* the statement does not settle an empty-domain condition variable outside the fragment (strict vs short-circuit reading)
@@ -112,7 +132,8 @@ Ext(b, v, o) == [w \in Bound(b) \cup {v} |-> IF w = v THEN o ELSE b[w]]
 RECURSIVE Ev(_, _, _), Flat(_)
 Flat(ss) == IF ss = <<>> THEN <<>> ELSE ss[1] \o Flat(Tail(ss))
 TermOn(t, o) == CASE t[1] = "var" -> o
-                  [] t[1] = "attr" -> (IF t[3] = "items" THEN ItemsOf[o] ELSE IF t[3] = "ref" THEN RefOf[o] ELSE IF t[3] = "w" THEN WOf[o] ELSE AttrOf[o][t[3]])
+                  [] t[1] = "attr" -> (IF t[3] = "items" THEN ItemsOf[o] ELSE IF t[3] = "ref" THEN RefOf[o] ELSE IF t[3] = "w" THEN WOf[o]
+                                       ELSE IF t[3] = "s" THEN SOf[o] ELSE AttrOf[o][t[3]])
                   [] t[1] = "attr2" -> AttrOf[RefOf[o]][t[4]]
 \* a term yields one result per value of its variable (enumerating the domain when the variable is unbound)
 EvT(t, b, dom) ==
@@ -166,7 +187,16 @@ Spec == Init /\ [][Next]_cond
 \* quantified family: the bound variable ranges over a non-empty domain (an empty universal domain is a recorded finding)
 DomAsgs == { d \in [Vars -> Doms] : ~Ambiguous(cond, d) /\ (Family = "quant" => d["y"] # <<>>)
                                      /\ (Family = "sql" => \A v \in Vars : d[v] = <<"o1", "o2", "o3", "o4">>) }   \* SQL ranges over the whole table
-CaseSels == IF Family \in {"quant", "sql"} THEN { <<"x">> } ELSE Sels
+RECURSIVE HasForall(_)
+HasForall(e) == CASE e[1] = "forall" -> TRUE
+                  [] e[1] \in {"and", "or"} -> HasForall(e[2]) \/ HasForall(e[3])
+                  [] e[1] = "not" -> HasForall(e[2])
+                  [] e[1] = "exists" -> HasForall(e[3])
+                  [] OTHER -> FALSE
+CaseSels == IF Family = "sql" THEN { <<"x">> }
+            ELSE IF Family = "quant" THEN (IF HasForall(cond) THEN { <<"x">> } ELSE { <<"x">>, <<"x", "y">> })
+            ELSE IF Family = "logic" THEN Sels \cup { <<"x", "x.a">> }
+            ELSE Sels
 \* I => R : the pipeline returns exactly the satisfying rows
 EngineSound == \A d \in DomAsgs, s \in Sels : Rows(cond, d, s) = Answers(cond, d, s)
 \* meta-properties of the reference itself (guard the oracle)
@@ -177,7 +207,7 @@ RefSane == \A d \in [Vars -> Doms], s \in CaseSels :
              /\ (cond[1] = "not" /\ cond[2][1] = "or" =>
                    Answers(cond, d, s) = Answers(<<"and", <<"not", cond[2][2]>>, <<"not", cond[2][3]>>>>, d, s))
              /\ ((\E v \in QVars(cond, s) : d[v] = <<>>) => Answers(cond, d, s) = {})
-Cases == { [dom |-> d, sel |-> s, exp |-> Answers(cond, d, s),
+Cases == { [dom |-> d, sel |-> s, exp |-> Answers(cond, d, s), exp2 |-> AnswersW(cond, d, s, 2),
             bag |-> IF InFragment(cond) THEN Bag(cond, d, s) ELSE {}] : d \in DomAsgs, s \in CaseSels }
 Emit == PrintT(ToJson([cond |-> cond, frag |-> InFragment(cond), cases |-> Cases]))
 ====
